@@ -73,3 +73,25 @@ Proof. intros. rewrite combine_length. lia. Qed.
 
 Lemma ks_ok_opt_some : forall A (x : res A) a, ok_opt x = Some a -> x = Ok a.
 Proof. intros A [b| |] a Hx; cbn in Hx; try discriminate. injection Hx as ->. reflexivity. Qed.
+
+(* The body of a translated loop equals the reference body: by computation when the source has today's
+   shape; otherwise by splitting on every scrutinee, innermost first (an atom shared by both sides),
+   until both sides are the same value. The second route absorbs behaviour-preserving rewrites such as
+   a check moved into a private helper (which the translator inlines) or a flag pair turned into a
+   tuple. No extensionality axiom is involved: the statement is pointwise. *)
+Ltac body_eq :=
+  intros;
+  first
+    [ reflexivity
+    | repeat match goal with p : (_ * _)%type |- _ => destruct p end; reflexivity
+    | repeat match goal with p : (_ * _)%type |- _ => destruct p end;
+      unfold obind;
+      repeat (cbv beta iota;
+              match goal with
+              | |- context [match ?x with _ => _ end] =>
+                  lazymatch x with
+                  | context [match _ with _ => _ end] => fail
+                  | _ => destruct x eqn:?
+                  end
+              end);
+      reflexivity ].
